@@ -701,6 +701,27 @@ def check_C01(args):
         return jobs
 
     def gen(rng, quick, work, flags):
+        # goal-directed: out-of-order points landing inside an already flushed
+        # series (and the converse), so that file and memstore columns of one row
+        # are merged in every relative position
+        gtabs = C01_TABLES[:2]
+        gmenus = [[point(1, 1, 1), point(2, 5, 1), point(3, 3, 1), point(4, 8, 3)],
+                  [point(1, 3, 3, vs=("w", "x")), point(2, 1, 3), point(3, 6, 3), point(4, 4, 4)]]
+        for gi, menu in enumerate(gmenus):
+            gs = goal_scripts(gtabs, menu, flags, ["LatePointInsideFlushedSeries", "FlushedPointInsideMemSeries"],
+                              os.path.join(work, "goals%d" % gi), max_flushes=3, max_crashes=0)
+            for g, h in gs.items():
+                if h:
+                    yield scenario_from_hist("C01-g%d-%s" % (gi, g), gtabs, menu, h), gtabs
+        for di in range(4 if quick else 40):
+            # long series of one or two keys with out-of-order arrival and a flush after every other point
+            menu = random_menu(rng, rng.randint(9, 13), ticks=(0, 14), keys=rng.choice([[1], [3], [1, 3]]), nonnumeric=False)
+            d = Directed(gtabs, menu)
+            for i in range(len(menu)):
+                d.insert_and_process()
+                if i % 2:
+                    d.flush(rng.choice(gtabs).name)
+            yield scenario_from_hist("C01-d%d" % di, gtabs, menu, d.h), gtabs
         n_menus, per = (6, 12) if quick else (60, 60)
         for mi in range(n_menus):
             tabs = C01_TABLES
